@@ -404,6 +404,18 @@ def describe(x):
 
 
 # ---------------------------------------------------------------------- C08
+def _names_foreign_mailbox(x):
+    """KF1 from the implementation's own rows: the mailbox a close resolves to (named, or remembered
+    by the connection) exists under another app"""
+    a, _side = x.bound_pre[x.c]
+    m = x.msg.get("mailbox")
+    m = H(m) if isinstance(m, str) else None
+    if m is None:
+        row = [r for r in x.pre["conns"] if r[0] == x.c]
+        m = row[0][9] if row and isinstance(row[0][9], str) else None
+    return m is not None and any(r[1] == m and r[0] != a for r in x.pre["chan"]["mb"])
+
+
 def mon_C08(hist, ctxs, kf):
     v = []
     nontrivial = 0
@@ -453,6 +465,12 @@ def mon_C08(hist, ctxs, kf):
                     if not srow or srow[0][1]:
                         v.append((x.i, "close of %s/%s by side %s answered closed, but the mailbox is still there and the side is %s"
                                   % (unhex(a), unhex(m), unhex(side), "still recorded as having it open" if srow else "not recorded at all")))
+        # close always completes: it never fails internally (except through known finding KF1:
+        # the named mailbox id exists under another app)
+        if x.mtype == "close" and not x.crash and x.c in x.bound_pre and x.exc is not None \
+                and not (kf and set(kf[x.i]) & {1}) and not _names_foreign_mailbox(x):
+            v.append((x.i, "close failed internally (%s): no `closed` was sent and the connection was dropped (%s)"
+                      % (x.exc, describe(x))))
         # the last close deletes the mailbox together with everything that hangs on it
         gone = set(r[1] for r in pre["mb"]) - post_mb
         for m in gone:
